@@ -75,8 +75,73 @@ def case(draw, tier):
     return {"schema": schema, "script": script, "start": start, "end": start + horizon}
 
 
+@st.composite
+def dyn_list_case(draw, tier):
+    """a dynamic (unsized) list grown by writes at arbitrary indices, several distinct elements written per cycle"""
+    big = tier == "thorough"
+    horizon = draw(st.integers(4, 24 if big else 12))
+    script, top = [], 0
+    from hgv.gen import time_set
+    for t in draw(time_set(0, horizon - 1, 1, 10 if big else 6)):
+        idx = sorted(draw(st.sets(st.integers(0, min(top + 3, 12)), min_size=1, max_size=5)))
+        top = max(top, idx[-1])
+        script.append([t, [{"k": "i", "i": i, "op": {"k": "set", "v": draw(st.integers(-3, 30))}} for i in idx]])
+    return {"kind": "DTSL", "schema": ["TSL", ["TS", "int"], 0], "script": script, "start": 0, "end": horizon}
+
+
+def check_dyn_list(case, ctx) -> Result:
+    res = Result()
+    prog = {"start": 0, "end": case["end"], "stmts": [
+        {"id": "w", "op": "src", "schema": "TSL[TS[int],0]", "script": case["script"]},
+        {"id": "rec", "op": "node", "ins": ["w"], "deep": True, "valid": []}]}
+    resp = ctx.run(prog)
+    if resp.get("crash"):
+        res.violations.append(Viol("engine_crash", f"worker died: {resp.get('signal')} {resp.get('stderr', '')[-300:]}"))
+        return res
+    if not resp.get("built") or resp.get("error"):
+        raise HarnessError(f"C05 dynamic-list program failed: {resp.get('error')}")
+    seen = {d["t"]: d["ins"][0] for d in Trace(resp["trace"]).evals_of("rec", "r")}
+    cur = {}
+    many = False
+    for t, ops in case["script"]:
+        written = {op["i"]: op["op"]["v"] for op in ops}
+        cur.update(written)
+        many = many or len(written) >= 3
+        g = seen.get(t)
+        feats = {"kind": "DTSL"}
+        if g is None or not g.get("m"):
+            res.violations.append(Viol("value_not_prev_plus_delta", f"dynamic list at t={t}: {len(written)} elements were written but the consumer saw no tick", feats))
+            break
+        val = {i: c.get("val") for i, c in enumerate(g.get("ch") or []) if c.get("v")}
+        if val != cur:
+            res.violations.append(Viol("value_not_sequential", f"dynamic list at t={t}: valid elements read {val}, the writes so far give {cur}", feats))
+            break
+        for what, d in (("delta_value", g.get("dv")), ("capture_delta", g.get("cd"))):
+            got = {i: v for i, v in (d or [])} if isinstance(d, list) else None
+            if got != written:
+                res.violations.append(Viol("value_not_prev_plus_delta", f"dynamic list at t={t}: {what} reads {d} but this cycle wrote exactly {sorted(written.items())} (value now {val})", dict(feats, accessor=what)))
+                break
+        if res.violations:
+            break
+        it = g.get("it") or {}
+        if "mi" in it and sorted(it["mi"]) != sorted(written):
+            res.violations.append(Viol("value_not_prev_plus_delta", f"dynamic list at t={t}: modified_items() lists {it['mi']} but this cycle wrote {sorted(written)}", dict(feats, accessor="modified_items")))
+            break
+    res.nontrivial = many
+    res.labels.append("kind_dynamic_list")
+    if many:
+        res.labels.append("three_plus_elements_in_one_cycle")
+    return res
+
+
+@st.composite
+def any_case(draw, tier):
+    # one case in ten is a dynamic list
+    return draw(dyn_list_case(tier)) if draw(st.sampled_from(list(range(10)))) == 0 else draw(case(tier))
+
+
 def strategy(tier):
-    return case(tier)
+    return any_case(tier)
 
 
 # --------------------------------------------------------------------------------------------------- helpers
@@ -328,6 +393,8 @@ def classify(schema, script):
 
 # --------------------------------------------------------------------------------------------------- check
 def check(case, ctx) -> Result:
+    if case.get("kind") == "DTSL":
+        return check_dyn_list(case, ctx)
     res = Result()
     schema = tuple_schema(case["schema"])
     ss = tm.schema_str(schema)
